@@ -42,8 +42,6 @@ import uuid as _uuid
 from engine import drivers
 from engine.core import MachineryError, digest
 
-F5_SIGNATURE = {'auto_parse_qs_csv': True, 'keep_blank_qs_values': False,
-                'field': 'comma-separated value with blank elements only', 'effect': 'name mapped to an empty list'}
 KINDS = ('str', 'int', 'float', 'bool', 'uuid', 'datetime', 'date', 'json', 'list', 'list_int', 'has')
 TRUE_DOC = ('true', 'True', 't', 'yes', 'y', '1', 'on')          # from the docstring of get_param_as_bool
 FALSE_DOC = ('false', 'False', 'f', 'no', 'n', '0', 'off')
@@ -227,7 +225,7 @@ class Sentinel:
         return '<default>'
 
 
-def getter_event(req, name, call, present, convs):
+def getter_event(req, name, call, present, convs, zero=False):
     """One getter call on a real request -> event for ParamGettersTrace."""
     import falcon
     kind = call['kind']
@@ -250,7 +248,7 @@ def getter_event(req, name, call, present, convs):
     meth = {'str': 'get_param', 'int': 'get_param_as_int', 'float': 'get_param_as_float', 'bool': 'get_param_as_bool',
             'uuid': 'get_param_as_uuid', 'datetime': 'get_param_as_datetime', 'date': 'get_param_as_date',
             'json': 'get_param_as_json', 'list': 'get_param_as_list', 'list_int': 'get_param_as_list', 'has': 'has_param'}[kind]
-    e = {'present': present, 'convs': convs, 'call': call, 'res': 'none', 'v': 0, 'vs': [], 'stored': False,
+    e = {'present': present, 'zero': zero, 'convs': convs, 'call': call, 'res': 'none', 'v': 0, 'vs': [], 'stored': False,
          'sv': 0, 'svs': [], 'exc': ''}
     try:
         if kind == 'has':
@@ -373,8 +371,7 @@ def report_parse(ctx, clause, e, surface, origin):
     elif clause.startswith('H:'):
         raise MachineryError('judge rejected harness input: %s %s' % (clause, what))
     else:
-        sig = F5_SIGNATURE if (clause == 'P:empty_list' and e['csv'] and not e['kb']) else None
-        ctx.violation(clause, case, what, signature=sig)
+        ctx.violation(clause, case, what)
 
 
 def report_getter(ctx, clause, e, origin):
@@ -390,10 +387,7 @@ def report_getter(ctx, clause, e, origin):
     if clause.startswith('D:'):
         ctx.detail(clause, case, what)
     else:
-        # (the code's own mapping holds an empty list for this name: the getter fails on params[name][-1],
-        #  or reports the empty list / "present" where the reference reading has no such parameter)
-        sig = F5_SIGNATURE if (meta.get('impl_empty_list') and meta['csv'] and not meta['kb']) else None
-        ctx.violation(clause, case, what, signature=sig)
+        ctx.violation(clause, case, what)
 
 
 def report_render(ctx, clause, e, origin):
@@ -424,12 +418,12 @@ def random_call(rng, kind):
     return c
 
 
-def getter_events_for(ctx, rng, surface, req, q, kb, csv, spec_entries, impl_entries, kinds, events, origin):
+def getter_events_for(ctx, rng, surface, req, q, kb, csv, spec_entries, spec_zero, impl_entries, kinds, events, origin):
     """Record getter calls on a real request for every name of the reference reading, every name
     the code reports, and an absent one."""
     spec = {txt(x['k']): [txt(v) for v in x['v']] for x in spec_entries}
-    impl_empty = {txt(x['k']) for x in impl_entries if not x['v']}
-    names = list(dict.fromkeys(list(spec) + [txt(x['k']) for x in impl_entries] + [ABSENT]))
+    zero = {txt(k) for k in spec_zero}          # names present with zero values (reference reading)
+    names = list(dict.fromkeys(list(spec) + sorted(zero) + [txt(x['k']) for x in impl_entries] + [ABSENT]))
     for name in names:
         vals = spec.get(name)
         for kind in kinds:
@@ -440,12 +434,11 @@ def getter_events_for(ctx, rng, surface, req, q, kb, csv, spec_entries, impl_ent
                 continue
             if kind not in ('list', 'list_int'):
                 convs = convs[-1:] if convs else []      # (the judge needs the last one only; keeps events small)
-            e = getter_event(req, name, call, vals is not None, convs)
+            e = getter_event(req, name, call, vals is not None, convs, name in zero)
             if e is None:
                 continue
-            e['meta'] = {'surface': surface, 'q': q, 'kb': kb, 'csv': csv, 'name': name,
-                         'impl_empty_list': name in impl_empty, 'origin': origin}
-            k = digest([e['present'], e['convs'], e['call'], e['res'], e['v'], e['vs'], e['stored'], e['sv'], e['svs']])
+            e['meta'] = {'surface': surface, 'q': q, 'kb': kb, 'csv': csv, 'name': name, 'origin': origin}
+            k = digest([e['present'], e['zero'], e['convs'], e['call'], e['res'], e['v'], e['vs'], e['stored'], e['sv'], e['svs']])
             ctx.case(None, nontrivial=any(c in q for c in '%+,') or len(vals or ()) > 1, key=('g', surface, q, kb, csv, name, kind))
             events.setdefault(k, e)
 
@@ -464,6 +457,10 @@ def run(ctx):
                        'boolean strings are the ones documented for get_param_as_bool',
                        'shape (scalar vs list) and key order are model detail (D-clauses); unconstrained when a '
                        'comma-separated value was dropped as a whole',
+                       'a name whose comma-separated value had blank elements only (all dropped) is "present with zero '
+                       'values": the mapping may hold it as an empty list or omit it, has_param may say either, '
+                       'get_param_as_list may return [] or behave as for an absent name; every scalar getter MUST '
+                       'behave as for an absent name (P-clause)',
                        'to_query_str round trip: non-empty names; an empty list has no comma-delimited rendering',
                        'Cython twin falcon/cyutil/uri.pyx: stale-or-absent, not checked (Cython unavailable)']
     rng = ctx.rng
@@ -513,7 +510,7 @@ def run(ctx):
                 suspects.append((e, surface))
             if req is not None and (n % gsample == 0 or c['blankcsv']):
                 kinds = ['str', 'list', 'has', typed[(n // gsample) % len(typed)]]
-                getter_events_for(ctx, rng, surface, req, q, c['kb'], c['csv'], c['entries'], e['entries'], kinds,
+                getter_events_for(ctx, rng, surface, req, q, c['kb'], c['csv'], c['entries'], c['zero'], e['entries'], kinds,
                                   gevents, 'enumerated query string')
     ctx.traces_validated += len(parse_cases)
     ctx.progress('leg A (parse): %d cases x surfaces replayed, %d differ; %d distinct getter events recorded'
@@ -598,9 +595,14 @@ def run(ctx):
     ctx.progress('leg M (getters): %d states, %d cases' % (rg.distinct, len(rg.json)))
     gsus = []
     reqcache = {}
+    groups = {}              # (present, zero, vals, call) -> the outcomes TLC accepts (several for a zero-values name)
     for c in rg.json:
+        groups.setdefault(digest([c['present'], c['zero'], c['vals'], c['call']]), [c, []])[1].append(c['last'])
+    for c, accepted in groups.values():
         vals = [pool[i - 1] for i in c['vals']]
-        q = '&'.join('p=' + urllib.parse.quote(v, safe='') for v in vals)
+        # a name present with zero values: 'p=,' read with CSV parsing on and blanks dropped
+        q, kb, csv = ('p=,', False, True) if c['zero'] else \
+            ('&'.join('p=' + urllib.parse.quote(v, safe='') for v in vals), True, False)
         call = c['call']
         kind = call['kind']
         ck = 'int' if kind == 'list_int' else 'str' if kind == 'list' else kind
@@ -609,19 +611,18 @@ def run(ctx):
         for surface in ('wsgi', 'asgi'):
             key = (surface, q)
             if key not in reqcache:
-                reqcache[key] = make_request(surface, q, True, False)
+                reqcache[key] = make_request(surface, q, kb, csv)
             req = reqcache[key]
             convs = [table['conv'][ck][i - 1] for i in c['vals']] if kind != 'has' else []
-            e = getter_event(req, 'p', call, c['present'], convs)
+            e = getter_event(req, 'p', call, c['present'], convs, c['zero'])
             if e is None:
                 continue
             ctx.case(None, nontrivial=len(vals) > 1 or any(x in q for x in '%+,'), key=('gp', surface, q, digest(call)))
-            w = c['last']
-            same = e['res'] == w['res'] and e['stored'] == w['stored'] and \
-                (w['res'] != 'value' or (e['v'] == w['v'] and e['vs'] == w['vs'])) and \
-                (not w['stored'] or (e['sv'] == w['v'] and e['svs'] == w['vs']))
+            same = any(e['res'] == w['res'] and e['stored'] == w['stored'] and
+                       (w['res'] != 'value' or (e['v'] == w['v'] and e['vs'] == w['vs'])) and
+                       (not w['stored'] or (e['sv'] == w['v'] and e['svs'] == w['vs'])) for w in accepted)
             if not same:
-                e['meta'] = {'surface': surface, 'q': q, 'kb': True, 'csv': False, 'name': 'p', 'origin': 'pool'}
+                e['meta'] = {'surface': surface, 'q': q, 'kb': kb, 'csv': csv, 'name': 'p', 'origin': 'pool'}
                 gsus.append(e)
     ctx.traces_validated += len(rg.json)
     ctx.progress('leg A (getters): %d cases x 2 surfaces replayed, %d differ' % (len(rg.json), len(gsus)))
@@ -696,7 +697,8 @@ def run(ctx):
         if req is None or (q, kb, csv) not in specs or pevents[j]['err']:
             continue
         kinds = ['str', 'list', 'has'] + rng.sample(typed, 3)
-        getter_events_for(ctx, rng, surface, req, q, kb, csv, specs[(q, kb, csv)]['entries'], pevents[j]['entries'],
+        getter_events_for(ctx, rng, surface, req, q, kb, csv, specs[(q, kb, csv)]['entries'], specs[(q, kb, csv)]['zero'],
+                          pevents[j]['entries'],
                           kinds, gevents, 'random query string')
     gl = list(gevents.values())
     ctx.progress('leg B: %d distinct getter events to judge' % len(gl))
@@ -763,12 +765,9 @@ def run(ctx):
                     res = fn(app, rq)
                     ctx.case(None, nontrivial=any(x in q for x in '%+,'), key=(surface, q, kb, csv))
                     if res.status not in (200, 400) or res.exc is not None:
-                        blank = csv and not kb and any(f.partition('=')[2] and not f.partition('=')[2].strip(',')
-                                                       for f in q.split('&'))
                         ctx.violation('P:exception', {'kind': 'app', 'surface': surface, 'q': cps(q), 'kb': kb, 'csv': csv},
                                       '[%s] GET /?%s keep_blank=%s csv=%s -> status %s %r'
-                                      % (surface, q, kb, csv, res.status, res.exc),
-                                      signature=F5_SIGNATURE if blank else None)
+                                      % (surface, q, kb, csv, res.status, res.exc))
     ctx.extra['cython_twin'] = 'stale-or-absent, not checked'
     ctx.extra['getter_events_judged'] = len(gl)
 
@@ -781,7 +780,8 @@ def replay(ctx, case):
         e, req = parse_event(surface if surface in ('func', 'wsgi', 'asgi') else 'func', q, case['kb'], case['csv'], True)
         print(describe_parse(e))
         vs, ex = judge_each(ctx, 'QueryStringTrace', [e], per=1)
-        print('reference reading:', [(txt(x['k']), [txt(v) for v in x['v']], x['shape']) for x in ex[0]['entries']])
+        print('reference reading:', [(txt(x['k']), [txt(v) for v in x['v']], x['shape']) for x in ex[0]['entries']],
+              'present with zero values:', [txt(k) for k in ex[0]['zero']])
         print('verdict:', vs[0])
         if vs[0] != 'ok':
             report_parse(ctx, vs[0], e, surface, 'replay')
@@ -793,9 +793,8 @@ def replay(ctx, case):
             convs = [refconv(ck, v) for v in vals] if vals and ck != 'has' else []
             if ck not in ('list', 'list_int'):
                 convs = convs[-1:]
-            g = getter_event(req, name, case['call'], vals is not None, convs)
-            g['meta'] = {'surface': surface, 'q': q, 'kb': case['kb'], 'csv': case['csv'], 'name': name,
-                         'impl_empty_list': any(txt(x['k']) == name and not x['v'] for x in e['entries'])}
+            g = getter_event(req, name, case['call'], vals is not None, convs, cps(name) in ex[0]['zero'])
+            g['meta'] = {'surface': surface, 'q': q, 'kb': case['kb'], 'csv': case['csv'], 'name': name}
             vs, _ = judge_each(ctx, 'ParamGettersTrace', [g], per=1)
             print('getter:', strip(g), '->', vs[0])
             if vs[0] != 'ok':
